@@ -149,3 +149,10 @@ pub assume_specification<'a, T, P: FnMut(&'a T) -> bool>[ <core::slice::Iter<'a,
             None => forall|j: int| 0 <= j < old(it).remaining().len() ==> call_ensures(pred, (#[trigger] old(it).remaining()[j],), false),
         };
 }
+verus! {
+pub assume_specification<T, E, F: FnOnce(E) -> T>[ Result::<T, E>::unwrap_or_else ](res: Result<T, E>, op: F) -> (r: T)
+    requires res is Err ==> call_requires(op, (res->Err_0,)),
+    ensures
+        res is Ok ==> r == res->Ok_0,
+        res is Err ==> call_ensures(op, (res->Err_0,), r);
+}
